@@ -250,7 +250,7 @@ func init() {
 		}
 		o.Require(expArg != nil, "log-expires-shape", "the entry's expiry is not a timestamp built from a time", exp[0])
 		wantR, wantE := "(time.Time).Add("+now+", recv.retention)", "(time.Time).Add("+now+", p5)"
-		posE, ltR := L("(0 < p5)", true), LAny(true, "(p5 < recv.retention)")
+		posE, ltR := L("(p5 < 1)", false), LAny(true, "(p5 < recv.retention)")
 		o.Check(e.CountLitEdges(l, posE)+e.CountLitEdges(l, posE.Neg()) > 0 && e.CountLitEdges(l, ltR)+e.CountLitEdges(l, ltR.Neg()) > 0,
 			"log-expiry-cases", "the expiry must be now+retention, or now+expiry when 0 < expiry < retention: Log no longer compares the requested expiry with 0 and the retention", exp[0])
 		for _, cs := range []struct {
